@@ -646,7 +646,7 @@ class BasicVisitor(NodeVisitor):
 
     def visit_cls(self, _, visited_children):
         _, _, exp, _ = visited_children
-        return BasicCls(exp if isinstance(exp, AbstractBasicExpression) else None)
+        return BasicCls(None if exp == "" else exp)
 
     def visit_statement2(self, _, visited_children):
         func, _, _, _, exp1, _, _, _, exp2, _, _, _ = visited_children
@@ -999,7 +999,7 @@ class BasicVisitor(NodeVisitor):
 
     def visit_hscreen_statement(self, _, visited_children) -> AbstractBasicStatement:
         _, _, exp, _ = visited_children
-        exp = BasicLiteral(0) if not isinstance(exp, AbstractBasicExpression) else exp
+        exp = BasicLiteral(0) if exp == "" else exp
         return BasicRunCall(
             "run ecb_hscreen",
             BasicExpressionList(
@@ -1012,7 +1012,7 @@ class BasicVisitor(NodeVisitor):
 
     def visit_hcls_statement(self, _, visited_children) -> AbstractBasicStatement:
         _, _, exp, _ = visited_children
-        exp = BasicLiteral(-1) if not isinstance(exp, AbstractBasicExpression) else exp
+        exp = BasicLiteral(-1) if exp == "" else exp
         return BasicRunCall(
             "run ecb_hcls",
             BasicExpressionList(
